@@ -492,4 +492,22 @@ DecPn(bs, pnoff, sample) ==
 EncIp(ip) == <<IF Len(ip) = 4 THEN 0 ELSE 1>> \o ip
 EncRetryToken(ip, port, cid, secs8) == <<0>> \o EncIp(ip) \o BE(2, port) \o EncCidLong(cid) \o secs8
 EncValidationToken(ip, secs8) == <<1>> \o EncIp(ip) \o secs8
+DecIp(bs, p) == IF p > Len(bs) THEN Fail
+                ELSE IF bs[p] = 0 THEN TakeFix(bs, p + 1, 4) ELSE IF bs[p] = 1 THEN TakeFix(bs, p + 1, 16) ELSE Fail
+\* [ok, retry, ip, port, cid, secs8]; trailing bytes are an error
+DecTokenPlain(bs) ==
+  IF bs = <<>> \/ bs[1] > 1 THEN Fail
+  ELSE LET a == DecIp(bs, 2) IN
+    IF ~a.ok THEN Fail
+    ELSE IF bs[1] = 1 THEN
+      LET s == TakeFix(bs, a.p, 8) IN
+      IF ~s.ok \/ s.p # Len(bs) + 1 THEN Fail
+      ELSE [ok |-> TRUE, retry |-> FALSE, ip |-> a.d, port |-> 0, cid |-> <<>>, secs8 |-> s.d]
+    ELSE LET pt == TakeFix(bs, a.p, 2) IN
+      IF ~pt.ok THEN Fail
+      ELSE LET c == DecCidLong(bs, pt.p) IN
+        IF ~c.ok THEN Fail
+        ELSE LET s == TakeFix(bs, c.p, 8) IN
+          IF ~s.ok \/ s.p # Len(bs) + 1 THEN Fail
+          ELSE [ok |-> TRUE, retry |-> TRUE, ip |-> a.d, port |-> pt.d[1] * 256 + pt.d[2], cid |-> c.d, secs8 |-> s.d]
 =============================================================================
